@@ -221,6 +221,12 @@ class Interp:
         r = module.resolve_name(name)
         if r is None:
             return None
+        if r[0] in ("class", "func") and r[1].module.dependency:
+            # dependency code: an op-table entry (assumed contract) takes precedence over its source
+            top = r[1].module.name.split(".")[0]
+            for key in (r[1].qualname, f"{top}.operators.{r[1].name}", f"{top}.{r[1].name}", f"{top}.utils.{r[1].name}"):
+                if key in self.optable:
+                    return self.external_value(ctx, key)
         if r[0] == "class":
             return VClass(r[1])
         if r[0] == "func":
